@@ -1,0 +1,49 @@
+//go:build verif
+
+package route
+
+import (
+	"strconv"
+	"strings"
+)
+
+// DumpTreeForVerif renders the radix tree of one method: kind, prefix, handler (through id, which
+// maps the registered pattern of a node to a caller-chosen name), static children in order, the
+// parameter child and the catch-all child.
+func (engine *Engine) DumpTreeForVerif(method string, id func(ppath string) string) string {
+	t := engine.trees.get(method)
+	if t == nil || t.root == nil {
+		return ""
+	}
+	var sb strings.Builder
+	var walk func(n *node)
+	walk = func(n *node) {
+		sb.WriteByte("SPA"[n.kind])
+		sb.WriteString(strconv.Quote(n.prefix))
+		if n.handlers != nil {
+			sb.WriteString("=" + id(n.ppath))
+		}
+		sb.WriteByte('[')
+		for i, c := range n.children {
+			if i > 0 {
+				sb.WriteByte(',')
+			}
+			walk(c)
+		}
+		sb.WriteByte('|')
+		if n.paramChild != nil {
+			walk(n.paramChild)
+		} else {
+			sb.WriteByte('-')
+		}
+		sb.WriteByte('|')
+		if n.anyChild != nil {
+			walk(n.anyChild)
+		} else {
+			sb.WriteByte('-')
+		}
+		sb.WriteByte(']')
+	}
+	walk(t.root)
+	return sb.String()
+}
